@@ -129,6 +129,19 @@ def run(ctx):
                 continue
             seen.add(key)
             mix.append([Fraction(r.rint(1, 5)), terms])
+        if kind == "probs_svd" and untagged and r.chance(1, 2) and m >= 2:
+            # member 1 = a.A + b.B with A, B of different photon numbers; member 2 = A alone (it coincides with the
+            # one-photon component member 1 splits into)
+            sa = [0] * m
+            sa[r.below(m)] = 1
+            sb = [0] * m
+            for j in r.shuffle(range(m))[:2]:
+                sb[j] = 1
+            ca = QI(Fraction(r.rint(1, 3)), Fraction(r.rint(-2, 2)))
+            cb = QI(Fraction(r.rint(1, 3)), Fraction(r.rint(-2, 2)))
+            mix = [[Fraction(r.rint(1, 4)), [(ca, [(0, sa)]), (cb, [(0, sb)])]], [Fraction(r.rint(1, 4)), [(QI(1), [(0, sa)])]]]
+            if r.chance(1, 2):
+                mix.append([Fraction(r.rint(1, 4)), [(QI(1), [(0, sb)])]])
         tot = sum(p for p, _ in mix)
         mix = [[p / tot, t] for p, t in mix]
         cases.append((c, m, kind, untagged, mix))
@@ -151,14 +164,32 @@ def run(ctx):
             sim.set_circuit(c.build())
             sim.set_precision(0)
             svs = [build_sv(m, t, untagged) for _, t in mix]
-            if kind == "probs_sv":
-                got = {tuple(k): float(v) for k, v in sim.probs(svs[0]).items()}
-            elif kind == "evolve_sv":
-                sv = sim.evolve(svs[0])
-                got = {}
+            def ev_dist(sv_in):
+                sv = sim.evolve(sv_in)
+                d = {}
                 for st, a in sv:
                     st2 = pcvl.BasicState(list(st))     # clear tags
-                    got[tuple(st2)] = got.get(tuple(st2), 0.0) + abs(complex(a)) ** 2
+                    d[tuple(st2)] = d.get(tuple(st2), 0.0) + abs(complex(a)) ** 2
+                return d
+            if kind in ("probs_sv", "evolve_sv"):
+                # the same simulator serves the query, a query on another superposition of the same terms, and the
+                # first query again: every answer must be the one of the model (linearity does not wear off)
+                first = {tuple(k): float(v) for k, v in sim.probs(svs[0]).items()} if kind == "probs_sv" else ev_dist(svs[0])
+                terms = mix[0][1]
+                if len(terms) >= 2:
+                    alt = [(cc * QI(Fraction(i + 1), Fraction(1 - i)), g) for i, (cc, g) in enumerate(terms)]
+                    alt_sv = build_sv(m, alt, untagged)
+                    sim.evolve(alt_sv)
+                    ctx.count("repeated-on-same-simulator")
+                again = {tuple(k): float(v) for k, v in sim.probs(svs[0]).items()} if kind == "probs_sv" else ev_dist(svs[0])
+                if not same(exp, first):
+                    got = first
+                else:
+                    got = again
+                    if not same(exp, again):
+                        ctx.fail(f"{kind}-second-query-differs", f"{kind}: the same query answered differently the second time on one simulator",
+                                 desc, str(sorted(exp.items())), str(sorted(again.items())))
+                        continue
             elif kind == "probs_svd":
                 svd = SVDistribution({sv: float(p) for sv, (p, _) in zip(svs, mix)})
                 res = sim.probs_svd(svd)
